@@ -9,6 +9,7 @@ import (
 
 	"github.com/ErdemOzgen/blackdagger/internal/dag"
 	"github.com/ErdemOzgen/blackdagger/internal/logger"
+	"github.com/ErdemOzgen/blackdagger/internal/verifhook"
 )
 
 type Status int
@@ -116,6 +117,7 @@ func (sc *Scheduler) Schedule(ctx context.Context, g *ExecutionGraph, done chan 
 		}
 	NodesIteration:
 		for _, node := range g.Nodes() {
+			verifhook.Point("dagsched.nodeIter", node)
 			if node.State().Status != NodeStatusNone || !isReady(g, node) {
 				continue NodesIteration
 			}
@@ -139,11 +141,14 @@ func (sc *Scheduler) Schedule(ctx context.Context, g *ExecutionGraph, done chan 
 
 			sc.logger.Info("Step execution started", "step", node.data.Step.Name)
 			node.setStatus(NodeStatusRunning)
+			verifhook.Point("dagsched.launch", node)
 			go func(node *Node) {
 				defer func() {
 					node.finish()
 					wg.Done()
+					verifhook.Point("dagsched.worker.exit", node)
 				}()
+				verifhook.Point("dagsched.worker.begin", node)
 
 				setupSucceed := true
 				if err := sc.setupNode(node); err != nil {
@@ -157,6 +162,7 @@ func (sc *Scheduler) Schedule(ctx context.Context, g *ExecutionGraph, done chan 
 
 			ExecRepeat:
 				for setupSucceed && !sc.isCanceled() {
+					verifhook.Point("dagsched.worker.beforeExec", node)
 					execErr := sc.execNode(ctx, node)
 					if execErr != nil {
 						status := node.State().Status
@@ -182,6 +188,7 @@ func (sc *Scheduler) Schedule(ctx context.Context, g *ExecutionGraph, done chan 
 								"error", execErr,
 								"retry", node.getRetryCount(),
 							)
+							verifhook.Point("dagsched.retry.wait", node)
 							time.Sleep(node.data.Step.RetryPolicy.Interval)
 							node.setRetriedAt(time.Now())
 							node.setStatus(NodeStatusNone)
@@ -198,6 +205,7 @@ func (sc *Scheduler) Schedule(ctx context.Context, g *ExecutionGraph, done chan 
 					if node.data.Step.RepeatPolicy.Repeat {
 						if execErr == nil || node.data.Step.ContinueOn.Failure {
 							if !sc.isCanceled() {
+								verifhook.Point("dagsched.repeat.wait", node)
 								time.Sleep(node.data.Step.RepeatPolicy.Interval)
 								continue ExecRepeat
 							}
@@ -223,9 +231,11 @@ func (sc *Scheduler) Schedule(ctx context.Context, g *ExecutionGraph, done chan 
 			}(node)
 			time.Sleep(sc.delay)
 		}
+		verifhook.Point("dagsched.loop", g)
 		time.Sleep(sc.pause)
 	}
 	wg.Wait()
+	verifhook.Point("dagsched.handlers", g)
 
 	var handlers []dag.HandlerType
 	switch sc.Status(g) {
@@ -301,6 +311,7 @@ func (sc *Scheduler) Signal(
 			node.signal(sig, allowOverride)
 		}
 	}
+	verifhook.Point("dagsched.signal.pass", sig)
 	if done != nil {
 		defer func() {
 			done <- true
